@@ -28,6 +28,7 @@ from geneticengine.algorithms.gp.operators.mutation import GenericMutationStep
 from geneticengine.algorithms.gp.operators.novelty import NoveltyStep
 from geneticengine.algorithms.gp.operators.selection import TournamentSelection
 from geneticengine.algorithms.gp.adaptive import AdaptiveGeneticProgramming  # noqa: E402
+from geneticengine.algorithms.gp.parameterless import InitiallyRandomGeneticProgramming, AlwaysRandomGeneticProgramming  # noqa: E402
 from geneticengine.evaluation.budget import TargetMultiFitness, TargetMultiSameFitness, TimeBudget  # noqa: E402
 from geneticengine.evaluation.budget import EvaluationBudget, TargetFitness, AnyOf
 from geneticengine.evaluation.sequential import SequentialEvaluator
@@ -150,6 +151,10 @@ def algorithm_run(R, alg, hist, mode, mini, multi, budget_kind, n, repkind, gp_s
     elif alg == "HC":
         a = HC(problem, budget, rep, rs, tracker, number_of_mutations=k)
         fb, b = 1, k
+    elif alg in ("IRGP", "ARGP"):
+        # GP with random configurations (set once / regenerated every generation); time-driven initialisation as above
+        a = {"IRGP": InitiallyRandomGeneticProgramming, "ARGP": AlwaysRandomGeneticProgramming}[alg](problem, budget, rep, rs, tracker)
+        fb = b = 1001 + 10
     elif alg == "AGP":
         # the self-adjusting GP: population size, operator probabilities and step weights change while it runs; its
         # initialisation is time-driven, so it runs on a virtual clock (0.1 s per fitness invocation)
@@ -165,7 +170,7 @@ def algorithm_run(R, alg, hist, mode, mini, multi, budget_kind, n, repkind, gp_s
     if budget_kind == "time":
         tracker.start_time = 0
         _trk.monotonic_ns = lambda: ff.k * 10 ** 9
-    elif alg == "AGP":
+    elif alg in ("AGP", "IRGP", "ARGP"):
         tracker.start_time = 0
         _trk.monotonic_ns = lambda: ff.k * 10 ** 8
     try:
@@ -343,13 +348,14 @@ def main():
                 stats["events"] += len(ev)
 
     # the self-adjusting GP variant
-    for i in range(6 if quick else 60):
+    for i in range(12 if quick else 90):
         mi = bool(i % 2)
         bk = ["eval", "anyof", "eval"][i % 3]
         h = [[x] for x in (5, 1, 9, 3, 11, 7, 2, 12, 4, 10, 6, 8)]
-        ev, cfg = algorithm_run(R, "AGP", h, "table", [mi], False, bk, R.randint(5, 40 if quick else 150),
+        variant = ["AGP", "IRGP", "ARGP"][(i // 2) % 3]
+        ev, cfg = algorithm_run(R, variant, h, "table", [mi], False, bk, R.randint(5, 40 if quick else 150),
                                 "tree" if i % 2 else "ge", target=R.choice([1, 12, 6]) if bk == "anyof" else None)
-        batch.trace(f"run/agp/{i}/{bk}", ev, cfg)
+        batch.trace(f"run/{variant.lower()}/{i}/{bk}", ev, cfg)
         stats["events"] += len(ev)
 
     if a.prop == "C14":
